@@ -1,6 +1,6 @@
 (* C13 — Topic aliases always resolve to the intended topic at the receiver.  Statements only;
-   proofs in Conn/Session.v, Conn/AliasTable.v and Conn/AliasInv.v.  Nothing else may be added to this file. *)
-From MQ Require Import Base.Prelude Conn.Types Conn.TopicAlias Conn.ConnRecord Conn.Step Corr.ConnTrace Conn.Session Conn.AliasTable Conn.AliasInv.
+   proofs in Conn/Session.v, Conn/AliasTable.v, Conn/AliasInv.v and Conn/AliasHist.v.  Nothing else may be added to this file. *)
+From MQ Require Import Base.Prelude Conn.Types Conn.TopicAlias Conn.ConnRecord Conn.Step Corr.ConnTrace Conn.Run Conn.Session Conn.AliasTable Conn.AliasInv Conn.AliasHist.
 
 (* receive side, every state: an aliased PUBLISH with an empty topic is delivered with exactly the
    topic bound to that alias on this connection, one with a topic is delivered as it is, and
@@ -74,11 +74,39 @@ Theorem C13_connack_limits_agree : forall c p c' G,
 Proof. exact connack_recv_limits_agree. Qed.
 Print Assumptions C13_connack_limits_agree.
 
-(* C13_partial: still decided by the monitor mon_c13 (an independent receiver-side table replayed over
-   the implementation's sent packets) and the correspondence rather than a theorem: that the calls
-   other than send(PUBLISH), CONNACK/CONNECT received and notify_closed leave the sender's table
-   alone and request no aliased PUBLISH (retransmissions carry the full topic: C13_stored_form_topic, C13_stored_form_alias),
-   i.e. the lift of C13_send_resolvable to whole histories. *)
+(* OVER HISTORIES.  [Inv c G]: the cover above, and every stored v5.0 PUBLISH has a topic and no alias.
+   [res_evs G evs]: every v5.0 PUBLISH requested in evs is resolvable by the receiver when it arrives
+   (the receiver's table grows along the list).  EVERY call of the API keeps Inv (with the receiver's
+   table after the call's events) and requests only resolvable PUBLISH packets — user sends,
+   retransmissions on resume, automatic responses, every received packet, timers, close.  [op_ok]:
+   the Topic Alias Maximum a parsed CONNECT/CONNACK reports is a two-byte integer, packets given to
+   restore_packets have the stored shape, a packet that is not a v5.0 PUBLISH carries no Topic Alias. *)
+Theorem C13_step_alias_inv : forall g c o G,
+  Inv c G -> op_ok o ->
+  match step g c o with
+  | Ok (c', evs, _) => Inv c' (ghost_after G evs) /\ res_evs G evs
+  | Panic _ => True
+  end.
+Proof. exact step_alias_inv. Qed.
+Print Assumptions C13_step_alias_inv.
+
+(* every history of any length, from every state with Inv; the receiver's table is dropped at
+   notify_closed like the sender's (bindings do not survive the connection) *)
+Theorem C13_every_history_resolvable : forall g ops c G,
+  Inv c G -> Forall op_ok ops -> hist_resolvable g c G ops.
+Proof. exact every_history_resolvable. Qed.
+Print Assumptions C13_every_history_resolvable.
+
+(* in particular every history of a freshly constructed object, the receiver starting empty *)
+Theorem C13_fresh_history_resolvable : forall g v ops,
+  Forall op_ok ops -> hist_resolvable g (conn_new g v) [] ops.
+Proof. exact fresh_history_resolvable. Qed.
+Print Assumptions C13_fresh_history_resolvable.
+
+(* C13_partial: nothing of the property is left to the monitor alone on the MODEL side; the
+   implementation is judged by mon_c13 (an independent receiver-side table replayed over the packets
+   it actually requested) and tied to the model by the correspondence.  [res_evs] states resolvability;
+   that the resolved topic is the one the application asked for is C13_send_resolvable (per call). *)
 
 Example C13_nonvacuous :
   let g := mkCfg RServer 65535 2 in
